@@ -63,7 +63,7 @@ pub fn summary(g: &peppi::game::immutable::Game) -> String {
     let ports: Vec<String> = fr.ports.iter().map(|p| format!("P{}:{}{}", p.port as u8, data(&p.leader), p.follower.as_ref().map_or(String::new(), |f| format!("+F:{}", data(f))))).collect();
     let n = fr.id.len();
     let start = fr.start.as_ref().map(|s| (s.random_seed.len(), cols_sum(&(0..s.random_seed.len()).map(|i| Some(start_row(s, i))).collect::<Vec<_>>())));
-    let end = fr.end.as_ref().map(|e| { let len = n; (len, cols_sum(&(0..len).map(|i| Some(end_row(e, i))).collect::<Vec<_>>())) });
+    let end = fr.end.as_ref().map(|e| { let len = e.latest_finalized_frame.as_ref().map_or(n, |c| c.len()); (len, cols_sum(&(0..len).map(|i| Some(end_row(e, i))).collect::<Vec<_>>())) });
     let item = fr.item.as_ref().map(|t| (t.r#type.len(), cols_sum(&(0..t.r#type.len()).map(|i| Some(item_row(t, i))).collect::<Vec<_>>())));
     let off = fr.item_offset.as_ref().map(|o| lean_list(&o.iter().map(|x| *x as u64).collect::<Vec<_>>()));
     let _ = v;
@@ -73,4 +73,83 @@ pub fn summary(g: &peppi::game::immutable::Game) -> String {
         lean_opt(off), lean_opt(item.map(|s| s.0)), lean_opt(item.map(|s| s.1)),
         lean_opt(g.gecko_codes.as_ref().map(|c| format!("({}, {})", c.actual_size, c.bytes.len()))), lean_opt(g.quirks.map(|q| q.double_game_end)),
         g.end.is_some(), g.metadata.is_some(), "none")
+}
+
+// ---- row view (transpose::*) dumped by hand, same value order as the column dumps above ----
+use peppi::frame::transpose as tr;
+pub fn tr_pre_row(p: &tr::Pre) -> Vec<u64> {
+    let mut r = vec![p.random_seed as u64, p.state as u64, f(p.position.x), f(p.position.y), f(p.direction), f(p.joystick.x), f(p.joystick.y),
+        f(p.cstick.x), f(p.cstick.y), f(p.triggers), p.buttons as u64, p.buttons_physical as u64, f(p.triggers_physical.l), f(p.triggers_physical.r)];
+    if let Some(a) = p.raw_analog_x { r.push(a as u8 as u64) }
+    if let Some(a) = p.percent { r.push(f(a)) }
+    if let Some(a) = p.raw_analog_y { r.push(a as u8 as u64) }
+    r
+}
+pub fn tr_post_row(p: &tr::Post) -> Vec<u64> {
+    let mut r = vec![p.character as u64, p.state as u64, f(p.position.x), f(p.position.y), f(p.direction), f(p.percent), f(p.shield),
+        p.last_attack_landed as u64, p.combo_count as u64, p.last_hit_by as u64, p.stocks as u64];
+    if let Some(a) = p.state_age { r.push(f(a)) }
+    if let Some(s) = p.state_flags { r.extend([s.0 as u64, s.1 as u64, s.2 as u64, s.3 as u64, s.4 as u64]) }
+    if let Some(a) = p.misc_as { r.push(f(a)) }
+    if let Some(a) = p.airborne { r.push(a as u64) }
+    if let Some(a) = p.ground { r.push(a as u64) }
+    if let Some(a) = p.jumps { r.push(a as u64) }
+    if let Some(a) = p.l_cancel { r.push(a as u64) }
+    if let Some(a) = p.hurtbox_state { r.push(a as u64) }
+    if let Some(s) = p.velocities { r.extend([f(s.self_x_air), f(s.self_y), f(s.knockback_x), f(s.knockback_y), f(s.self_x_ground)]) }
+    if let Some(a) = p.hitlag { r.push(f(a)) }
+    if let Some(a) = p.animation_index { r.push(a as u64) }
+    if let Some(a) = p.last_hit_by_instance { r.push(a as u64) }
+    if let Some(a) = p.instance_id { r.push(a as u64) }
+    r
+}
+pub fn tr_start_row(s: &tr::Start) -> Vec<u64> { let mut r = vec![s.random_seed as u64]; if let Some(a) = s.scene_frame_counter { r.push(a as u64) } r }
+pub fn tr_end_row(e: &tr::End) -> Vec<u64> { let mut r = vec![]; if let Some(a) = e.latest_finalized_frame { r.push(a as u32 as u64) } r }
+pub fn tr_item_row(t: &tr::Item) -> Vec<u64> {
+    let mut r = vec![t.r#type as u64, t.state as u64, f(t.direction), f(t.velocity.x), f(t.velocity.y), f(t.position.x), f(t.position.y),
+        t.damage as u64, f(t.timer), t.id as u64];
+    if let Some(m) = t.misc { r.extend([m.0 as u64, m.1 as u64, m.2 as u64, m.3 as u64]) }
+    if let Some(a) = t.owner { r.push(a as u8 as u64) }
+    if let Some(a) = t.instance_id { r.push(a as u64) }
+    r
+}
+
+// ---- the same column dumps for the in-progress (mutable) representation ----
+use peppi::frame::mutable as mu;
+pub fn mu_pre_row(p: &mu::Pre, i: usize) -> Vec<u64> {
+    let mut r = vec![p.random_seed.values()[i] as u64, p.state.values()[i] as u64, f(p.position.x.values()[i]), f(p.position.y.values()[i]), f(p.direction.values()[i]),
+        f(p.joystick.x.values()[i]), f(p.joystick.y.values()[i]), f(p.cstick.x.values()[i]), f(p.cstick.y.values()[i]), f(p.triggers.values()[i]),
+        p.buttons.values()[i] as u64, p.buttons_physical.values()[i] as u64, f(p.triggers_physical.l.values()[i]), f(p.triggers_physical.r.values()[i])];
+    if let Some(a) = &p.raw_analog_x { r.push(a.values()[i] as u8 as u64) }
+    if let Some(a) = &p.percent { r.push(f(a.values()[i])) }
+    if let Some(a) = &p.raw_analog_y { r.push(a.values()[i] as u8 as u64) }
+    r
+}
+pub fn mu_post_row(p: &mu::Post, i: usize) -> Vec<u64> {
+    let mut r = vec![p.character.values()[i] as u64, p.state.values()[i] as u64, f(p.position.x.values()[i]), f(p.position.y.values()[i]), f(p.direction.values()[i]),
+        f(p.percent.values()[i]), f(p.shield.values()[i]), p.last_attack_landed.values()[i] as u64, p.combo_count.values()[i] as u64, p.last_hit_by.values()[i] as u64, p.stocks.values()[i] as u64];
+    if let Some(a) = &p.state_age { r.push(f(a.values()[i])) }
+    if let Some(s) = &p.state_flags { r.extend([s.0.values()[i] as u64, s.1.values()[i] as u64, s.2.values()[i] as u64, s.3.values()[i] as u64, s.4.values()[i] as u64]) }
+    if let Some(a) = &p.misc_as { r.push(f(a.values()[i])) }
+    if let Some(a) = &p.airborne { r.push(a.values()[i] as u64) }
+    if let Some(a) = &p.ground { r.push(a.values()[i] as u64) }
+    if let Some(a) = &p.jumps { r.push(a.values()[i] as u64) }
+    if let Some(a) = &p.l_cancel { r.push(a.values()[i] as u64) }
+    if let Some(a) = &p.hurtbox_state { r.push(a.values()[i] as u64) }
+    if let Some(s) = &p.velocities { r.extend([f(s.self_x_air.values()[i]), f(s.self_y.values()[i]), f(s.knockback_x.values()[i]), f(s.knockback_y.values()[i]), f(s.self_x_ground.values()[i])]) }
+    if let Some(a) = &p.hitlag { r.push(f(a.values()[i])) }
+    if let Some(a) = &p.animation_index { r.push(a.values()[i] as u64) }
+    if let Some(a) = &p.last_hit_by_instance { r.push(a.values()[i] as u64) }
+    if let Some(a) = &p.instance_id { r.push(a.values()[i] as u64) }
+    r
+}
+pub fn mu_start_row(s: &mu::Start, i: usize) -> Vec<u64> { let mut r = vec![s.random_seed.values()[i] as u64]; if let Some(a) = &s.scene_frame_counter { r.push(a.values()[i] as u64) } r }
+pub fn mu_end_row(e: &mu::End, i: usize) -> Vec<u64> { let mut r = vec![]; if let Some(a) = &e.latest_finalized_frame { r.push(a.values()[i] as u32 as u64) } r }
+pub fn mu_item_row(t: &mu::Item, i: usize) -> Vec<u64> {
+    let mut r = vec![t.r#type.values()[i] as u64, t.state.values()[i] as u64, f(t.direction.values()[i]), f(t.velocity.x.values()[i]), f(t.velocity.y.values()[i]),
+        f(t.position.x.values()[i]), f(t.position.y.values()[i]), t.damage.values()[i] as u64, f(t.timer.values()[i]), t.id.values()[i] as u64];
+    if let Some(m) = &t.misc { r.extend([m.0.values()[i] as u64, m.1.values()[i] as u64, m.2.values()[i] as u64, m.3.values()[i] as u64]) }
+    if let Some(a) = &t.owner { r.push(a.values()[i] as u8 as u64) }
+    if let Some(a) = &t.instance_id { r.push(a.values()[i] as u64) }
+    r
 }
